@@ -194,16 +194,18 @@ def skipToTablePlus (tablename : String) (lastTablename : Option String) (nelt0 
   loop ((← get).pos.rest.length + 2) tname0 nelt0 lastTablename.isSome
 
 def skipToTable (tablename : String) (lastTablename : Option String) (nelt : Int) : C Unit := do
-  match (← read).fam with
-  | .autough2 => skipToTableAUTOUGH2 tablename
-  | .toughplus => skipToTablePlus tablename lastTablename nelt
-  | _ => skipToTableTOUGH2 tablename lastTablename
+  match bound (← read).fam "skip_to_table" with
+  | "skip_to_table_AUTOUGH2" => skipToTableAUTOUGH2 tablename
+  | "skip_to_table_TOUGHplus" => skipToTablePlus tablename lastTablename nelt
+  | "skip_to_table_TOUGH2" => skipToTableTOUGH2 tablename lastTablename
+  | _ => throw (.named "AttributeError")
 
 /-! ### reading the selected lines of one table -/
 
 /-- `self.read_table_line(line, ncols, fmt)` as bound by detect_simulator -/
 def readTableLineOf (fam : Fam) (t : Table) (line : Str) : Except Exc (List FVal) :=
-  if fam == .autough2 then readTableLineAUTOUGH2 line (t.numpos.headD none)
+  -- "read_table_line_AUTOUGH2" or "read_table_line_TOUGH2" (detect_simulator has checked that one of them is bound)
+  if bound fam "read_table_line" == "read_table_line_AUTOUGH2" then readTableLineAUTOUGH2 line (t.numpos.headD none)
   else readTableLineTOUGH2 line t.cols.length t.numpos
 
 /-- `vals = self.read_table_line(line, ncols, fmt); valindex = self._table[tname]._col[colname];
